@@ -46,7 +46,7 @@ impl Engine for WasmEngine {
                 p.timeout_s = if quick { 600 } else { 3 * 3600 };
                 p.hang_is_violation = true;
                 p.rule = "case = generated valid module (40% loop-heavy profile) run on every export with 2 argument vectors under metered-V0 and metered-V1 artifacts; evaluations = metered executions judged against the transcribed cost schedule (plus one per budget-sweep run); distinct_nontrivial = distinct modules with an execution of >= 3 positive charges and >= 1 loop back-edge or host call".into();
-                p.floors = vec![("energy.exact".into(), 1000), ("energy.trap_at_least".into(), 50), ("grow.events".into(), 10), ("budget.ooe_observed".into(), 200), ("budget.exact_remaining".into(), 200), ("ticks.positive".into(), 10_000), ("modules.nontrivial".into(), 50), ("chain_energy.memory_alloc".into(), 100)];
+                p.floors = vec![("energy.exact".into(), 1000), ("energy.trap_at_least".into(), 50), ("grow.events".into(), 10), ("budget.ooe_observed".into(), 200), ("budget.exact_remaining".into(), 200), ("ticks.positive".into(), 10_000), ("modules.nontrivial".into(), 50), ("chain_energy.memory_alloc".into(), 100), ("modules.long_segment".into(), 16)];
             }
             "C09" => {
                 p.cases = if quick { 20_000 } else { 2_000_000 };
